@@ -105,6 +105,7 @@ class _Ctx:
         self.tol_blas = 1e-10 if self.f64 else 2e-5
         self.mech = {"model": c["spec"]["k"], "kinds": "+".join(M.kinds_in(c["spec"])), "axes": len(c["batch"])}
         self.decisive = 0
+        self.col_chaos = 0.0
         self.noise = 0.0          # estimated size of float rounding noise in the output (see _rounding_noise)
 
     def count(self, k, n=1):
@@ -168,6 +169,13 @@ def _rounding_noise(ctx, other, data, decl, y0):
     if not bool(torch.isfinite(d).all()):
         return float("inf"), float("inf")
     err32 = float(d.max())
+    # the chaos test is per output column: a bounded column (sin of a huge polynomial) next to a huge one would
+    # otherwise hide behind the global output scale
+    flat_d = d.reshape(-1, d.shape[-1])
+    flat_y = y0.to(torch.float64).abs().reshape(-1, d.shape[-1])
+    if flat_d.numel():
+        col = flat_d.max(0).values / flat_y.max(0).values.clamp(min=1.0)
+        ctx.col_chaos = float(col.max())
     return err32 * (1.9e-9 if ctx.f64 else 1.0), err32
 
 
@@ -478,7 +486,7 @@ def run_case(c):
         return res
     scale = max(1.0, float(y0.abs().max()))
     ctx.noise, err32 = _rounding_noise(ctx, other, data, decl, y0)
-    if not err32 < 1e-3 * scale:       # float32 keeps fewer than 3 digits of this net's output: chaotic
+    if not (err32 < 1e-3 * scale and ctx.col_chaos < 1e-3):   # float32 keeps fewer than 3 digits of an output column
         ctx.count("degenerate_ill_conditioned_skipped")
         return res
 
